@@ -299,7 +299,7 @@ theorem completeNameSOMsg_change {a m} (hI : Inv s) (h : completeNameSOMsg s a m
         | false => rfl
         | true => simp [hx] at hne
       have hsel : so.seller = d.owner := by
-        obtain ⟨d1, hd1', _, hs⟩ := hI.so n so hso
+        obtain ⟨d1, hd1', _, hs, _⟩ := hI.so n so hso
         rw [getName] at hd; rw [hd] at hd1'; injection hd1' with hd1'; subst hd1'; exact hs
       exact ⟨_, if_pos rfl, Or.inr (NameChange.complete a so b hso hsel hb he (by rename (d.owner = a ∨ b.bidder = a) => hp; exact hp.imp Eq.symm Eq.symm))⟩
     · exact ⟨d, by simp [hnm]; exact hd, Or.inl rfl⟩
@@ -326,7 +326,7 @@ theorem purchaseName_change {a m offer} (hI : Inv s) (h : purchaseName s a m off
       injection hb with hb; subst hb
       rename (validatePurchase s _ offer = Except.ok _) => hv
       have hse := validatePurchase_ok hv
-      obtain ⟨d1, hd1, hlt, hsel⟩ := hI.so n _ hso
+      obtain ⟨d1, hd1, hlt, hsel, _⟩ := hI.so n _ hso
       rw [hd] at hd1; injection hd1 with hd1; subst hd1
       have he : d.expired s.now = false := by
         simp only [SellOrder.expired, DymName.expired, decide_eq_false_iff_not] at hse ⊢
